@@ -17,6 +17,19 @@ VALUE = XLError('#VALUE!')
 DATA = XLError('#GETTING_DATA')
 
 
+_ALL = (ERROR, DIV_ZERO, NAME, NOT_AVAILABLE, NULL, NUM, REF, VALUE, DATA)
+
+
+def release_tracebacks():
+    """
+    The error values above are shared instances that are raised as well as returned.
+    Every raise chains new frames onto their __traceback__; drop them once an evaluation is over.
+    """
+    for err in _ALL:
+        err.__traceback__ = None
+        err.__context__ = None
+
+
 def from_message(message):
     errdict = {
         '#ERROR!': ERROR,
